@@ -58,6 +58,9 @@ func genC16(g *prng.R) c16Case {
 	}
 	cs.Sc = sc
 	act := M{"type": typ, "actor": alice(), "to": carol()}
+	// a Database that keeps the values it is handed gives them back without
+	// an '@context' member of their own
+	sc.Cfg.ValuesWithoutContext = g.Chance(1, 5)
 	n := g.Range(1, 3)
 	memberPool := []string{"content", "summary", "name", "mediaType", "sensitive", "x-custom", "tag", "attachment", "cc"}
 	sample := func(k string, tag string) interface{} {
@@ -79,6 +82,18 @@ func genC16(g *prng.R) c16Case {
 			return A{R1 + "/users/dave"}
 		case "mediaType":
 			return "text/" + tag
+		case "summaryMap", "nameMap":
+			return M{"en": k + " " + tag, "fr": k + " " + tag + " (fr)"}
+		case "duration":
+			if tag == "new" {
+				return "PT0S"
+			}
+			return "PT5M"
+		case "published":
+			if tag == "new" {
+				return "2021-01-02T03:04:05Z"
+			}
+			return "2020-01-02T03:04:05+01:00"
 		default:
 			return k + " " + tag
 		}
@@ -89,6 +104,16 @@ func genC16(g *prng.R) c16Case {
 		for i := 0; i < n; i++ {
 			id := fmt.Sprintf("%s/notes/u%d", L, i)
 			stored := M{"type": "Note", "id": id}
+			memberPool := append([]string{}, memberPool...)
+			// natural-language members under either spelling (one spelling
+			// per object: which of two spellings of one property wins is
+			// not this property's), and members of other literal kinds
+			for j, k := range memberPool {
+				if (k == "summary" || k == "name") && g.Chance(1, 3) {
+					memberPool[j] = k + "Map"
+				}
+			}
+			memberPool = append(memberPool, "duration", "published")
 			for _, k := range memberPool {
 				if g.Chance(2, 3) {
 					stored[k] = sample(k, "old")
@@ -390,6 +415,10 @@ func init() {
 						for k := range gm {
 							if _, ok := wm[k]; !ok && k != "@context" {
 								feat = "Update: member supplied as null in the object not removed"
+								if _, other := wm[k+"Map"]; other {
+									feat = "Update: language map written under the plain spelling"
+									break
+								}
 							}
 						}
 					}
